@@ -32,24 +32,53 @@ CASE_TIMEOUT = 5.0  # wall-clock seconds for exec() of one line
 MAX_STAGES = 4
 
 _SH = """#!/bin/sh
-if [ $# -gt 0 ]; then a=""; for x in "$@"; do a="${{a}}${{x}}_"; done; echo "A{i}_${{a}}{i}A"; fi
+{sleep}if [ $# -gt 0 ]; then a=""; for x in "$@"; do a="${{a}}${{x}}_"; done; echo "A{i}_${{a}}{i}A"; fi
 in=""
-while IFS= read -r l || [ -n "$l" ]; do in="${{in}}${{l}}_"; done
+z=0
+while IFS= read -r l || [ -n "$l" ]; do case "$l" in Zz*) z=$((z+1));; *) in="${{in}}${{l}}_";; esac; done
+if [ $z -gt 0 ]; then in="${{in}}Z${{z}}_"; fi
 if [ -n "$in" ]; then echo "I{i}_${{in}}{i}I"; fi
 echo O{i}
 echo E{i} >&2
 exit 0
 """
 
+# "bulk" alias stages put FILL_FLUSHED filler lines of FILL_LINE bytes into their stdout and flush
+# (just under the 64 KiB of a pipe: the write itself never blocks), then FILL_LAZY more lines that
+# stay in the stream wrapper.  Every stage counts the filler lines it reads and reports `Z<count>`;
+# the harness compresses filler in every sink it reads to one `Z<count>` line.
+FILL_LINE = "Z" + "z" * 998 + "\n"
+FILL_FLUSHED = 64
+FILL_LAZY = 4
+SLOW_SECONDS = 1.0
+
 _bindir = None
 _warm = None
 
 
-def stage_word(kind, i):
-    return {"ext": "st", "thr": "ta", "unthr": "ua"}[kind] + str(i)
+def stage_word(kind, i, st=None):
+    """Command word of a stage.  Variants (st = the stage dict): 's' = slow consumer (sleeps
+    SLOW_SECONDS before it reads), 'l' = lazy alias (never flushes), 'r' = alias that hands its
+    output back as the return value (out, err, 0), 'b' / 'B' = bulk alias (first fills the pipe
+    through its stdout / stderr)."""
+    w = {"ext": "st", "thr": "ta", "unthr": "ua"}[kind] + str(i)
+    if st:
+        w += {"lazy": "l", "ret": "r"}.get(st.get("style"), "")
+        w += {"out": "b", "err": "B"}.get(_bulk(st), "")
+        w += "s" if st.get("slow") else ""
+    return w
 
 
-def stage_stdout(i, stdin_lines, args=()):
+def _bulk(st):
+    b = st.get("bulk")
+    return "out" if b is True else (b or None)
+
+
+def stage_stderr(i, bulk=False):
+    return (f"Z{FILL_FLUSHED + FILL_LAZY}\n" if bulk else "") + f"E{i}\n"
+
+
+def stage_stdout(i, stdin_lines, args=(), bulk=False):
     """Reference for what stage i prints on stdout given its argv (without the command word) and
     the multiset of (canonical) lines it read."""
     s = ""
@@ -57,7 +86,35 @@ def stage_stdout(i, stdin_lines, args=()):
         s += f"A{i}_" + "".join(a + "_" for a in args) + f"{i}A\n"
     if stdin_lines:
         s += f"I{i}_" + "".join(ln + "_" for ln in sorted(stdin_lines)) + f"{i}I\n"
+    if bulk:
+        s += f"Z{FILL_FLUSHED + FILL_LAZY}\n"
     return s + f"O{i}\n"
+
+
+_FILL_RE = None
+
+
+def compress_filler(text):
+    """Replace the filler lines in a sink by one `Z<count>` line at the place of the first."""
+    global _FILL_RE
+    if not isinstance(text, str) or "Zzzz" not in text:
+        return text
+    import re
+
+    if _FILL_RE is None:
+        _FILL_RE = re.compile(r"^Zz+$")
+    out, n, at = [], 0, None
+    for ln in text.splitlines(True):
+        if _FILL_RE.match(ln.rstrip("\n")):
+            if at is None:
+                at = len(out)
+                out.append(None)
+            n += 1
+        else:
+            out.append(ln)
+    if at is not None:
+        out[at] = f"Z{n}\n"
+    return "".join(out)
 
 
 def canon_line(line):
@@ -114,26 +171,48 @@ def make_bindir():
         for i in range(1, MAX_STAGES + 1):
             p = os.path.join(d, f"st{i}")
             with open(p, "w") as f:
-                f.write(_SH.format(i=i))
+                f.write(_SH.format(i=i, sleep=""))
+            os.chmod(p, 0o755)
+            p = os.path.join(d, f"st{i}s")
+            with open(p, "w") as f:
+                f.write(_SH.format(i=i, sleep=f"/bin/sleep {SLOW_SECONDS}\n"))
             os.chmod(p, 0o755)
         _bindir = d
     return _bindir
 
 
-def _mk_alias(i):
+def _mk_alias(i, style="flush", bulk=False, slow=0.0):
     def _stage(args, stdin=None, stdout=None, stderr=None):
+        if slow:
+            time.sleep(slow)
         data = ""
         if stdin is not None:
             data = stdin.read()
         lines = [ln for ln in data.split("\n") if ln != ""]
+        nfill = sum(1 for ln in lines if ln.startswith("Zz"))
+        lines = [ln for ln in lines if not ln.startswith("Zz")] + ([f"Z{nfill}"] if nfill else [])
+        head = ""
         if args:
-            stdout.write(f"A{i}_" + "".join(str(a) + "_" for a in args) + f"{i}A\n")
+            head += f"A{i}_" + "".join(str(a) + "_" for a in args) + f"{i}A\n"
         if lines:
-            stdout.write(f"I{i}_" + "".join(ln + "_" for ln in lines) + f"{i}I\n")
-        stdout.write(f"O{i}\n")
-        stdout.flush()
-        stderr.write(f"E{i}\n")
-        stderr.flush()
+            head += f"I{i}_" + "".join(ln + "_" for ln in lines) + f"{i}I\n"
+        ehead = ""
+        if bulk == "out":
+            stdout.write(head + FILL_LINE * FILL_FLUSHED)
+            stdout.flush()  # fits into the empty pipe: returns at once
+            head = FILL_LINE * FILL_LAZY
+        elif bulk == "err":
+            stderr.write(FILL_LINE * FILL_FLUSHED)
+            stderr.flush()
+            ehead = FILL_LINE * FILL_LAZY
+        if style == "ret":
+            return (head + f"O{i}\n", ehead + f"E{i}\n", 0)
+        stdout.write(head + f"O{i}\n")
+        if style == "flush":
+            stdout.flush()
+        stderr.write(ehead + f"E{i}\n")
+        if style == "flush":
+            stderr.flush()
         return 0
 
     _stage.__name__ = f"_c07_stage{i}"
@@ -151,7 +230,7 @@ def render(case):
             glue = "" if r.get("nospace") else " "
             text = op if tgt is None else f"{op}{glue}{tgt}"
             (words if lead else trail).append(text)
-        words.append(stage_word(st["kind"], i))
+        words.append(stage_word(st["kind"], i, st))
         words += list(st.get("args", ()))
         parts.append(" ".join(words + trail + list(st.get("args_after", ()))))
     line = " | ".join(parts)
@@ -280,6 +359,10 @@ def _child(case, resfd):
         for i in range(1, MAX_STAGES + 1):
             XSH.aliases[f"ta{i}"] = _mk_alias(i)
             XSH.aliases[f"ua{i}"] = unthreadable(_mk_alias(i))
+        for i, st in enumerate(case["stages"], 1):
+            w = stage_word(st["kind"], i, st)
+            if st["kind"] == "thr" and w not in XSH.aliases:
+                XSH.aliases[w] = _mk_alias(i, st.get("style", "flush"), _bulk(st), SLOW_SECONDS if st.get("slow") else 0.0)
         src = render(case)
         threads0 = threading.active_count()
         exc = None
@@ -338,8 +421,11 @@ def _child(case, resfd):
         res["term1"] = _read(t1)
         res["term2"] = _read(t2)
         after = _snapshot(work)
-        res["files"] = after
+        res["files"] = {k: compress_filler(v) for k, v in after.items()}
         res["before"] = before
+        for k in ("term1", "term2", "cap_out", "cap_err"):
+            if k in res:
+                res[k] = compress_filler(res[k])
         import shutil
 
         os.chdir("/")
